@@ -144,6 +144,22 @@ def _history_job(job):
                 evs.append(("Other", _digest(results)))
             results2, _ = _extract(doc)
             evs.append(("Reextract", "same", 0, _digest(results2)))
+            if n < 2:
+                # the result is a function of the BYTES: where the caller's stream happens to stand is no input --
+                # the same buffer object a second time (it stands wherever the first extraction left it), and buffers
+                # the caller has read from before (position in the middle / at the end)
+                fn, data, name = _load(doc)
+                buf = io.BytesIO(data)
+                list(fn(buf, name))
+                for pos in (None, len(data) // 2, len(data)):
+                    if pos is not None:
+                        buf = io.BytesIO(data)
+                        buf.seek(pos)
+                    try:
+                        dg = _digest(list(fn(buf, name)))
+                    except Exception as e:
+                        dg = f"EXC:{type(e).__name__}"
+                    evs.append(("Reextract", "same", 0, dg))
             out.append((d0, evs))
     except Exception as e:
         return {"exc": f"{type(e).__name__}: {e}"[:300]}
